@@ -251,4 +251,11 @@ the constructor) -/
 theorem registry_operations_atomic_in_source :
     Gen.managerOpsInClosure = true ∧ Gen.managerOneOpPerCall = true ∧ Gen.managerStartedOnce = true := by decide
 
+/-- two more things the registry model takes for granted, read off the source on every run: a caller of join / leave /
+write waits for the manager's answer unconditionally (plain receive: no `select`, no timer — a caller that gave up would
+leave an operation behind that the manager applies later, recording a session nobody owns), and the manager's table is
+created once and never replaced (every operation sees every session recorded before it) -/
+theorem registry_operations_complete_in_source :
+    Gen.managerReplyAwaited = true ∧ Gen.managerTableCreatedOnce = true := by decide
+
 end JT.C11
